@@ -26,6 +26,8 @@ def run(ctx, build):
     rng = ctx.rng
     lays = [l for l in gc.layouts_for(ctx, 26 if ctx.quick() else 350, dtypes=('f8', 'i4', 'f4'), max_elems=120 if ctx.quick() else 500, max_dims=3)
             if not gc.dims_ge_points(l)]
+    # designed: a grid whose HDF5 chunks line up neither with the position nor with the spectroscopic grid
+    lays.insert(0, gen.Layout([7, 3], [0, 1], [3, 2], [0, 1], dtype='f8', vkind=2))
     cases, meta = [], []
     hist = {'datasets': 0, 'reductions': 0, 'functions': {}, 'reduced': {'some_pos': 0, 'all_pos': 0, 'some_spec': 0, 'all_spec': 0, 'both_sides': 0},
             'axes_left': {}, 'written': 0, 'raised_on_write': {}, 'in_memory_only': 0}
@@ -38,7 +40,10 @@ def run(ctx, build):
         if os.path.exists(path):
             os.remove(path)
         with h5py.File(path, 'w') as f:
-            main = gen.write_layout(f, lay)
+            # every third dataset (and the designed first one) is stored in chunks that do not line up with its grids
+            chunks = (min(lay.N, 4), min(lay.M, 5)) if li % 3 == 0 and lay.N * lay.M > 1 else None
+            hist['misaligned_chunks'] = hist.get('misaligned_chunks', 0) + int(chunks is not None)
+            main = gen.write_layout(f, lay, chunks=chunks)
             hist['datasets'] += 1
             labels = lay.pos_labels + lay.spec_labels
             sizes = lay.pos_sizes + lay.spec_sizes
